@@ -1187,7 +1187,7 @@ class Discharger:
                     break
         except (P.NoEval, P.Panic) as ex:
             return None
-        return n["min"] >= 1 and bad is None, "nonempty", "`%s` is parsed by %s{%d,}: `%s` evaluated on each of the %d texts of up to " + str(BN.N) + " of these characters yields Some%s" % (arg, peg.cs_show(n["cs"]), n["min"], src(recv)[:60], cnt, "" if bad is None else " — EXCEPT on %r" % bad)
+        return n["min"] >= 1 and bad is None, "nonempty", ("`%s` is parsed by %s{%d,}: `%s` evaluated on each of the %d texts of up to " + str(BN.N) + " of these characters yields Some%s") % (arg, peg.cs_show(n["cs"]), n["min"], src(recv)[:60], cnt, "" if bad is None else " — EXCEPT on %r" % bad)
 
     def nonempty_symbolic(self, f, recv):
         fb = self.b.fn_ir(f.key)
